@@ -620,7 +620,10 @@ type opKey struct {
 }
 
 func (k opKey) String() string {
-	return fmt.Sprintf("%s/%s path=%q input#%d", entryNames[k.Entry], variantNames[k.Variant], pathOf(k), k.Input)
+	txt := pool.inputs[k.Input].text
+	h := newHashSink()
+	h.str(txt)
+	return fmt.Sprintf("%s/%s path=%q input=%08x(%dB)", entryNames[k.Entry], variantNames[k.Variant], pathOf(k), uint32(h.sum()), len(txt))
 }
 
 // opResult is what executing an operation yields.
